@@ -128,6 +128,72 @@ func layouts(thorough bool) []layout {
 			out = append(out, l2)
 		}
 	}
+	out = append(out, wrapperHoleLayouts(thorough)...)
+	return out
+}
+
+// wrapperSet is one compressed format-0/1 wrapper message holding the given stored offsets (the log cleaner
+// removed the others from inside the set: the inner offsets are not consecutive; format 1 keeps relative inner
+// offsets with their gaps and the wrapper carries the absolute offset of the last retained message).
+func wrapperSet(f, codec int8, offs ...int64) *refwire.Batch {
+	b := &refwire.Batch{Format: f, Codec: codec, Base: offs[0], Last: offs[len(offs)-1]}
+	for _, o := range offs {
+		b.Recs = append(b.Recs, rec(o))
+	}
+	return b
+}
+
+// formats 0 and 1: compressed wrappers with compaction holes INSIDE the set (after the first message, in the
+// middle, before the last one, several), alone, followed / preceded by another compressed set or by plain messages
+func wrapperHoleLayouts(thorough bool) []layout {
+	var out []layout
+	cname := []string{"none", "gzip", "snappy", "lz4", "zstd"}
+	for _, f := range []int8{0, 1} {
+		cs := []int8{refwire.Gzip}
+		if thorough {
+			cs = append(cs, refwire.Snappy)
+			if f == 1 {
+				cs = append(cs, refwire.Lz4)
+			}
+		}
+		for _, codec := range cs {
+			add := func(name string, bs ...*refwire.Batch) {
+				out = append(out, layout{name: fmt.Sprintf("v%d-%s-wrapper-holes-%s", f, cname[codec], name), batches: bs})
+			}
+			// one wrapper over 0..5 that kept its first and last message: every non-empty set of removed inner offsets
+			// (quick: one hole after the first message / in the middle / before the last one, two holes)
+			for mask := 1; mask < 16; mask++ {
+				if (!thorough || codec != refwire.Gzip) && mask != 1 && mask != 6 && mask != 8 && mask != 5 {
+					continue
+				}
+				offs := []int64{0}
+				for i := 0; i < 4; i++ {
+					if mask&(1<<i) == 0 {
+						offs = append(offs, int64(i+1))
+					}
+				}
+				offs = append(offs, 5)
+				add(fmt.Sprintf("one%v", offs), wrapperSet(f, codec, offs...))
+			}
+			plain := func(offs ...int64) *refwire.Batch {
+				b := wrapperSet(f, refwire.None, offs...)
+				return b
+			}
+			// followed by another compressed set
+			add("[0 2 3][4 5]", wrapperSet(f, codec, 0, 2, 3), wrapperSet(f, codec, 4, 5))
+			add("0[1 3 4]5", plain(0), wrapperSet(f, codec, 1, 3, 4), plain(5))
+			if codec != refwire.Gzip {
+				continue // the other codecs (thorough only): the single wrappers and these two
+			}
+			add("[0 1 3][4 5]", wrapperSet(f, codec, 0, 1, 3), wrapperSet(f, codec, 4, 5))
+			add("[0 2][3 5]", wrapperSet(f, codec, 0, 2), wrapperSet(f, codec, 3, 5))
+			add("[0 1][2 4 5]", wrapperSet(f, codec, 0, 1), wrapperSet(f, codec, 2, 4, 5))
+			// followed / preceded by plain messages
+			add("[0 2 3]4,5", wrapperSet(f, codec, 0, 2, 3), plain(4, 5))
+			add("[0 3]4,5", wrapperSet(f, codec, 0, 3), plain(4, 5))
+			add("0,1[2 3 5]", plain(0, 1), wrapperSet(f, codec, 2, 3, 5))
+		}
+	}
 	return out
 }
 
